@@ -125,21 +125,22 @@ theorem storeKwargs_map (am : Bool) (l : List String) (g : String → PyVal) :
   simp [storeKwargs, fz, List.map_map, Function.comp_def]
 
 /-- The value bound to parameter `p` by `cls(**kwargs)`. -/
-def boundVal (kwargs : List (String × PyVal)) (p : String) : PyVal := (bindVal kwargs p).getD default
+def boundVal (cls : String) (kwargs : List (String × PyVal)) (p : String) : PyVal :=
+  (bindVal cls kwargs p).getD default
 
-theorem bindArgs_ok_inv (params : List String) (kwargs bound : List (String × PyVal))
-    (h : bindArgs params kwargs = .ok bound) :
-    bound = params.map (fun p => (p, boundVal kwargs p)) ∧
-      (∀ k ∈ akeys kwargs, k ∈ params) ∧ ∀ p ∈ params, (bindVal kwargs p).isSome = true := by
+theorem bindArgs_ok_inv (cls : String) (params : List String) (kwargs bound : List (String × PyVal))
+    (h : bindArgs cls params kwargs = .ok bound) :
+    bound = params.map (fun p => (p, boundVal cls kwargs p)) ∧
+      (∀ k ∈ akeys kwargs, k ∈ params) ∧ ∀ p ∈ params, (bindVal cls kwargs p).isSome = true := by
   unfold bindArgs at h
   split at h
   · rename_i hk
     obtain ⟨h1, h2⟩ := resMapM_ok_inv _ _ _ h
-    have hv : ∀ p ∈ params, (bindVal kwargs p).isSome = true := by
+    have hv : ∀ p ∈ params, (bindVal cls kwargs p).isSome = true := by
       intro p hp
       obtain ⟨v, hv⟩ := h2 p hp
       unfold bindOne at hv
-      cases hb : bindVal kwargs p with
+      cases hb : bindVal cls kwargs p with
       | none => simp [hb] at hv
       | some w => rfl
     refine ⟨?_, by simpa using hk, hv⟩
@@ -147,21 +148,21 @@ theorem bindArgs_ok_inv (params : List String) (kwargs bound : List (String × P
     apply List.map_congr_left
     intro p hp
     unfold bindOne boundVal
-    cases hb : bindVal kwargs p with
+    cases hb : bindVal cls kwargs p with
     | none => have := hv p hp; simp [hb] at this
     | some w => simp
   · cases h
 
-theorem bindArgs_ok_of (params : List String) (kwargs : List (String × PyVal))
-    (hk : ∀ k ∈ akeys kwargs, k ∈ params) (hv : ∀ p ∈ params, (bindVal kwargs p).isSome = true) :
-    bindArgs params kwargs = .ok (params.map fun p => (p, boundVal kwargs p)) := by
+theorem bindArgs_ok_of (cls : String) (params : List String) (kwargs : List (String × PyVal))
+    (hk : ∀ k ∈ akeys kwargs, k ∈ params) (hv : ∀ p ∈ params, (bindVal cls kwargs p).isSome = true) :
+    bindArgs cls params kwargs = .ok (params.map fun p => (p, boundVal cls kwargs p)) := by
   unfold bindArgs
   have : ((akeys kwargs).all fun k => decide (k ∈ params)) = true := by simpa using hk
   rw [if_pos this]
   apply resMapM_ok_of_forall
   intro p hp
   unfold bindOne boundVal
-  cases hb : bindVal kwargs p with
+  cases hb : bindVal cls kwargs p with
   | none => have := hv p hp; simp [hb] at this
   | some w => simp
 
@@ -191,16 +192,16 @@ theorem superArg_ok (params : List String) (bv : String → PyVal) (k : String)
 theorem classInit_ok_inv (am : Bool) (cls : String) (ht : TablesOk cls)
     (kwargs : List (String × PyVal)) (a : Inst) (h : classInit am cls kwargs = .ok a) :
     a.cls = cls ∧
-    a.attrs = ((superKwOf cls).map fun k => (k, fz am (superVal (initParamsOf cls) (boundVal kwargs) k)))
+    a.attrs = ((superKwOf cls).map fun k => (k, fz am (superVal (initParamsOf cls) (boundVal cls kwargs) k)))
       ++ extraAttrs cls := by
   unfold classInit at h
-  cases hb : bindArgs (initParamsOf cls) kwargs with
+  cases hb : bindArgs cls (initParamsOf cls) kwargs with
   | error e => simp [hb] at h
   | ok bound =>
-    obtain ⟨hbound, _, _⟩ := bindArgs_ok_inv _ _ _ hb
+    obtain ⟨hbound, _, _⟩ := bindArgs_ok_inv _ _ _ _ hb
     simp only [hb] at h
     have hs : resMapM (superArg bound) (superKwOf cls) =
-        .ok ((superKwOf cls).map fun k => (k, superVal (initParamsOf cls) (boundVal kwargs) k)) := by
+        .ok ((superKwOf cls).map fun k => (k, superVal (initParamsOf cls) (boundVal cls kwargs) k)) := by
       rw [hbound]
       apply resMapM_ok_of_forall
       intro k hk
@@ -212,12 +213,12 @@ theorem classInit_ok_inv (am : Bool) (cls : String) (ht : TablesOk cls)
 theorem classInit_ok_of (am : Bool) (cls : String) (ht : TablesOk cls)
     (kwargs : List (String × PyVal))
     (hk : ∀ k ∈ akeys kwargs, k ∈ initParamsOf cls)
-    (hv : ∀ p ∈ initParamsOf cls, (bindVal kwargs p).isSome = true) :
+    (hv : ∀ p ∈ initParamsOf cls, (bindVal cls kwargs p).isSome = true) :
     ∃ a, classInit am cls kwargs = .ok a := by
   unfold classInit
-  rw [bindArgs_ok_of _ _ hk hv]
-  have hs : resMapM (superArg ((initParamsOf cls).map fun p => (p, boundVal kwargs p))) (superKwOf cls) =
-      .ok ((superKwOf cls).map fun k => (k, superVal (initParamsOf cls) (boundVal kwargs) k)) := by
+  rw [bindArgs_ok_of _ _ _ hk hv]
+  have hs : resMapM (superArg ((initParamsOf cls).map fun p => (p, boundVal cls kwargs p))) (superKwOf cls) =
+      .ok ((superKwOf cls).map fun k => (k, superVal (initParamsOf cls) (boundVal cls kwargs) k)) := by
     apply resMapM_ok_of_forall
     intro k hk'
     exact superArg_ok _ _ k (ht.super_ok k hk')
@@ -244,25 +245,25 @@ theorem inputParameters_of_attrs (cls : String) (ht : TablesOk cls) (am : Bool) 
 /-- Main lemma: construct, then copy (possibly under the other setting of the option). -/
 theorem copy_after_init (am0 am1 : Bool) (cls : String) (ht : TablesOk cls)
     (kwargs : List (String × PyVal)) (a : Inst) (h : classInit am0 cls kwargs = .ok a) :
-    inputParameters a = .ok ((publicSlots cls).map fun s => (s, fz am0 (boundVal kwargs s))) ∧
+    inputParameters a = .ok ((publicSlots cls).map fun s => (s, fz am0 (boundVal cls kwargs s))) ∧
     ∃ b, copy am1 a = .ok b ∧ b.cls = a.cls ∧
       inputParameters b =
-        .ok ((publicSlots cls).map fun s => (s, fz am1 (fz am0 (boundVal kwargs s)))) := by
+        .ok ((publicSlots cls).map fun s => (s, fz am1 (fz am0 (boundVal cls kwargs s)))) := by
   obtain ⟨hc, ha⟩ := classInit_ok_inv am0 cls ht kwargs a h
-  have hpa := inputParameters_of_attrs cls ht am0 (boundVal kwargs) a hc ha
+  have hpa := inputParameters_of_attrs cls ht am0 (boundVal cls kwargs) a hc ha
   refine ⟨hpa, ?_⟩
   -- the keyword dict of the copy
-  let kw' := (publicSlots cls).map fun s => (s, fz am0 (boundVal kwargs s))
+  let kw' := (publicSlots cls).map fun s => (s, fz am0 (boundVal cls kwargs s))
   have hkeys : ∀ k ∈ akeys kw', k ∈ initParamsOf cls := by
     intro k hk
     have : akeys kw' = publicSlots cls := akeys_map_self _ _
     rw [this] at hk
     exact ht.pub_sub_params k hk
-  have hlook : ∀ p ∈ initParamsOf cls, alookup p kw' = some (fz am0 (boundVal kwargs p)) := by
+  have hlook : ∀ p ∈ initParamsOf cls, alookup p kw' = some (fz am0 (boundVal cls kwargs p)) := by
     intro p hp
-    exact alookup_map_self (publicSlots cls) (fun s => fz am0 (boundVal kwargs s)) p
+    exact alookup_map_self (publicSlots cls) (fun s => fz am0 (boundVal cls kwargs s)) p
       (ht.params_sub_pub p hp)
-  have hvals : ∀ p ∈ initParamsOf cls, (bindVal kw' p).isSome = true := by
+  have hvals : ∀ p ∈ initParamsOf cls, (bindVal cls kw' p).isSome = true := by
     intro p hp; unfold bindVal; rw [hlook p hp]; rfl
   obtain ⟨b, hb⟩ := classInit_ok_of am1 cls ht kw' hkeys hvals
   refine ⟨b, ?_, ?_, ?_⟩
@@ -270,12 +271,12 @@ theorem copy_after_init (am0 am1 : Bool) (cls : String) (ht : TablesOk cls)
   · obtain ⟨hcb, _⟩ := classInit_ok_inv am1 cls ht kw' b hb
     rw [hcb, hc]
   · obtain ⟨hcb, hab⟩ := classInit_ok_inv am1 cls ht kw' b hb
-    rw [inputParameters_of_attrs cls ht am1 (boundVal kw') b hcb hab]
+    rw [inputParameters_of_attrs cls ht am1 (boundVal cls kw') b hcb hab]
     congr 1
     apply List.map_congr_left
     intro s hs
     have hp := ht.pub_sub_params s hs
-    have : boundVal kw' s = fz am0 (boundVal kwargs s) := by
+    have : boundVal cls kw' s = fz am0 (boundVal cls kwargs s) := by
       unfold boundVal bindVal; rw [hlook s hp]; rfl
     rw [this]
 
@@ -288,5 +289,177 @@ theorem norm_fz (am : Bool) (v : PyVal) : (fz am v).norm = v.norm := by
   cases am
   · simp [fz, PyVal.norm_freeze]
   · simp [fz]
+
+/-! ### construction and copy with validation (`classInitV`, `copyV`) -/
+
+theorem storeKwargs_true (kw : List (String × PyVal)) : storeKwargs true kw = kw := by
+  induction kw with
+  | nil => rfl
+  | cons kv t ih =>
+    simp only [storeKwargs, List.map_cons, if_true] at ih ⊢
+    rw [ih]
+
+theorem absKw_storeKwargs (am : Bool) (kw : List (String × PyVal)) :
+    absKw (storeKwargs am kw) = absKw kw := by
+  simp only [absKw, storeKwargs, List.map_map]
+  apply List.map_congr_left
+  intro kv _
+  cases am <;> simp [PyVal.norm_freeze]
+
+/-- `construct` on a keyword list: the validator sees the abstract value of the arguments,
+whatever the options; what is stored is `storeKwargs allowMutable`. -/
+theorem construct_kw (w : List (String × PyVal) → Res Unit) (av sv am : Bool)
+    (kw : List (String × PyVal)) :
+    construct absKw (storeKwargs false) w av sv am kw =
+      if sv || av then
+        (match w (absKw kw) with
+         | .ok _ => .ok (storeKwargs am kw)
+         | .error e => .error e)
+      else .ok (storeKwargs am kw) := by
+  have hst : (if am then kw else storeKwargs false kw) = storeKwargs am kw := by
+    cases am
+    · simp
+    · simp [storeKwargs_true]
+  unfold construct
+  simp only [hst, absKw_storeKwargs]
+  split <;> rfl
+
+theorem boundVal_of_alookup (cls : String) (kw : List (String × PyVal)) (p : String) (w : PyVal)
+    (h : alookup p kw = some w) : boundVal cls kw p = w := by
+  unfold boundVal bindVal; rw [h]; rfl
+
+theorem filterMap_eq_map_of {β β' : Type} (f : β → Option β') (g : β → β') (l : List β)
+    (h : ∀ x ∈ l, f x = some (g x)) : l.filterMap f = l.map g := by
+  induction l with
+  | nil => rfl
+  | cons x t ih =>
+    have hx := h x (by simp)
+    have ht := ih (fun y hy => h y (by simp [hy]))
+    simp [hx, ht]
+
+/-- The definition as a function of the values bound to the parameters. -/
+def defOf (cls : String) (bv : String → PyVal) : List (String × PyVal) :=
+  (superKwOf cls).map fun k => (k, (superVal (initParamsOf cls) bv k).norm)
+
+theorem definitionOf_of_attrs (cls : String) (am : Bool) (bv : String → PyVal) (a : Inst)
+    (hc : a.cls = cls)
+    (ha : a.attrs = ((superKwOf cls).map fun k => (k, fz am (superVal (initParamsOf cls) bv k)))
+      ++ extraAttrs cls) :
+    definitionOf a = defOf cls bv := by
+  unfold definitionOf defOf
+  rw [hc]
+  apply filterMap_eq_map_of
+  intro k hk
+  have h1 := alookup_map_self (superKwOf cls) (fun k => fz am (superVal (initParamsOf cls) bv k)) k hk
+  rw [ha, alookup_append_left _ _ _ _ h1]
+  simp [norm_fz]
+
+theorem defOf_congr (cls : String) (ht : TablesOk cls) (bv bv' : String → PyVal)
+    (h : ∀ p ∈ initParamsOf cls, (bv' p).norm = (bv p).norm) : defOf cls bv' = defOf cls bv := by
+  unfold defOf
+  apply List.map_congr_left
+  intro k hk
+  unfold superVal
+  by_cases hp : k ∈ initParamsOf cls
+  · simp [hp, h k hp]
+  · rcases ht.super_ok k hk with hk' | ⟨_, hf⟩
+    · exact absurd hk' hp
+    · simp [hp, PyVal.norm, PyVal.normList, h "final_state" hf]
+
+theorem superArgs_ok (cls : String) (ht : TablesOk cls) (kwargs bound : List (String × PyVal))
+    (hb : bindArgs cls (initParamsOf cls) kwargs = .ok bound) :
+    resMapM (superArg bound) (superKwOf cls) =
+      .ok ((superKwOf cls).map fun k => (k, superVal (initParamsOf cls) (boundVal cls kwargs) k)) := by
+  obtain ⟨hbound, _, _⟩ := bindArgs_ok_inv _ _ _ _ hb
+  rw [hbound]
+  apply resMapM_ok_of_forall
+  intro k hk
+  exact superArg_ok _ _ k (ht.super_ok k hk)
+
+/-- `classInitV` is `classInit` followed (when validation is due) by the validator applied to
+the definition of the new object. -/
+theorem classInitV_eq (v : String → List (String × PyVal) → Res Unit) (sv am : Bool) (cls : String)
+    (ht : TablesOk cls) (kwargs : List (String × PyVal)) :
+    classInitV v sv am cls kwargs =
+      match classInit am cls kwargs with
+      | .error e => .error e
+      | .ok a =>
+        if sv || alwaysValidates cls then
+          (match v cls (definitionOf a) with
+           | .ok _ => .ok a
+           | .error e => .error e)
+        else .ok a := by
+  unfold classInitV classInit
+  cases hb : bindArgs cls (initParamsOf cls) kwargs with
+  | error e => rfl
+  | ok bound =>
+    simp only [superArgs_ok cls ht kwargs bound hb, construct_kw]
+    have hd : ∀ st, st = storeKwargs am ((superKwOf cls).map fun k =>
+          (k, superVal (initParamsOf cls) (boundVal cls kwargs) k)) →
+        definitionOf { cls := cls, attrs := st ++ extraAttrs cls } =
+          absKw ((superKwOf cls).map fun k => (k, superVal (initParamsOf cls) (boundVal cls kwargs) k)) := by
+      intro st hst
+      rw [definitionOf_of_attrs cls am (boundVal cls kwargs) _ rfl (by rw [hst, storeKwargs_map])]
+      simp [defOf, absKw, List.map_map, Function.comp_def]
+    rw [hd _ rfl]
+    by_cases hcond : (sv || alwaysValidates cls) = true
+    · simp only [hcond, if_true]
+      cases v cls (absKw ((superKwOf cls).map fun k =>
+        (k, superVal (initParamsOf cls) (boundVal cls kwargs) k))) <;> rfl
+    · simp only [hcond]
+      rfl
+
+theorem classInitV_ok_inv (v : String → List (String × PyVal) → Res Unit) (sv am : Bool) (cls : String)
+    (ht : TablesOk cls) (kwargs : List (String × PyVal)) (a : Inst)
+    (h : classInitV v sv am cls kwargs = .ok a) :
+    classInit am cls kwargs = .ok a ∧
+      ((sv || alwaysValidates cls) = true → v cls (definitionOf a) = .ok ()) := by
+  rw [classInitV_eq v sv am cls ht] at h
+  cases hci : classInit am cls kwargs with
+  | error e => simp [hci] at h
+  | ok a' =>
+    simp only [hci] at h
+    by_cases hcond : (sv || alwaysValidates cls) = true
+    · simp only [hcond, if_true] at h
+      cases hv : v cls (definitionOf a') with
+      | error e => simp [hv] at h
+      | ok u =>
+        simp only [hv, Except.ok.injEq] at h
+        subst h
+        exact ⟨rfl, fun _ => by cases u; exact hv⟩
+    · simp only [hcond] at h
+      simp only [Bool.false_eq_true, if_false, Except.ok.injEq] at h
+      subst h
+      exact ⟨rfl, fun hc => absurd hc hcond⟩
+
+/-- Construct (possibly without validation), then copy with validation due: if the definition
+of the original satisfies the validator, the copy is constructed, has the same class and the
+same definition (abstract value), and therefore satisfies the validator too. -/
+theorem copyV_after_init (v : String → List (String × PyVal) → Res Unit) (am0 sv1 am1 : Bool)
+    (cls : String) (ht : TablesOk cls) (kwargs : List (String × PyVal)) (a : Inst)
+    (h : classInit am0 cls kwargs = .ok a) (hvalid : v cls (definitionOf a) = .ok ()) :
+    ∃ b, copyV v sv1 am1 a = .ok b ∧ copy am1 a = .ok b ∧ definitionOf b = definitionOf a := by
+  obtain ⟨hc, ha⟩ := classInit_ok_inv am0 cls ht kwargs a h
+  obtain ⟨hpa, b, hb, _, _⟩ := copy_after_init am0 am1 cls ht kwargs a h
+  have hda := definitionOf_of_attrs cls am0 (boundVal cls kwargs) a hc ha
+  -- the copy
+  have hb' : classInit am1 cls ((publicSlots cls).map fun s => (s, fz am0 (boundVal cls kwargs s))) = .ok b := by
+    unfold copy at hb; rw [hpa, hc] at hb; exact hb
+  obtain ⟨hcb, hab⟩ := classInit_ok_inv am1 cls ht _ b hb'
+  have hdb := definitionOf_of_attrs cls am1 _ b hcb hab
+  have hdef : definitionOf b = definitionOf a := by
+    rw [hdb, hda]
+    apply defOf_congr cls ht
+    intro p hp
+    have hl := alookup_map_self (publicSlots cls) (fun s => fz am0 (boundVal cls kwargs s)) p
+      (ht.params_sub_pub p hp)
+    rw [boundVal_of_alookup cls _ p _ hl, norm_fz]
+  refine ⟨b, ?_, hb, hdef⟩
+  unfold copyV
+  rw [hpa]
+  simp only [hc]
+  rw [classInitV_eq v sv1 am1 cls ht, hb']
+  simp only [hdef, hvalid]
+  split <;> rfl
 
 end AV.VA.Obj
